@@ -96,6 +96,10 @@ def stepLine (p : KP) (line : String) : KP × String :=
     | .error => (o.kp, withDump "err" o.kp)
     | .diverges => (p, "hang")   -- the implementation is run in a child process for such texts: its state is unchanged
   | ["info"] => (p, hex p.parameterInfo)
+  | ["count", cur, l] =>
+    match countKey (I cur) (unhex l) with
+    | some (_, sz) => (p, toString sz)
+    | none => (p, "err")
   | _ => (p, "bad-op")
 
 partial def loop (h : IO.FS.Stream) (p : KP) : IO Unit := do
